@@ -548,6 +548,10 @@ def pt_update_case(args):
     capmode = "computed" if recompute else "explicit"
 
     def tensors(tag):
+        if kind == "pttempo":
+            # truncated PT-MPOs: their caps are NOT the plain trace vectors, so stale caps are visible
+            bath = oq.Bath(0.5 * M.SZ, M.ohmic(alpha=0.2 if tag == 400 else 0.7, temperature=0.1 if tag == 400 else 0.9))
+            return oq.pt_tempo_compute(bath, 0.0, (n + 0.4) * DT, oq.TempoParameters(dt=DT, epsrel=1e-7), progress_type="silent")
         if kind.startswith("rank4"):
             ks = [[R.random_free_unitary(d * e, tag + k)] for k in range(n)]
             return A.build_pt(d, e, sigma, ks, dt=DT, basis_v=v, caps=capmode)
@@ -622,7 +626,17 @@ def reuse_case(perm):
         return oq.Bath(0.5 * M.SX, c), oq.System(0.5 * M.SZ + 0.2 * M.SX), oq.TimeDependentSystem(M.td_hamiltonian), \
             oq.TempoParameters(dt=DT, epsrel=1e-9, dkmax=2)
 
-    def comp(name, bath, sysm, tds, prm, pt):
+    def make_ctrl():
+        c_ = oq.Control(2)
+        c_.add_single(1, KICK)
+        c_.add_single(1, np.diag([1.0, 0.5, 0.5, 1.0]).astype(complex))
+        c_.add_single(2, KICK.conj().T, post=True)
+        c_.add_single(2, np.diag([1.0, 0.3, 0.3, 1.0]).astype(complex), post=True)
+        return c_
+    ctrl = make_ctrl()
+
+    def comp(name, bath, sysm, tds, prm, pt, ctrl=None):
+        ctrl = ctrl if ctrl is not None else make_ctrl()
         if name == "tempo":
             return np.array(oq.Tempo(sysm, bath, prm, M.RHO_GEN2, 0.0).compute(3.4 * DT, progress_type="silent").states).ravel()
         if name == "tempo-td":
@@ -632,6 +646,8 @@ def reuse_case(perm):
             return np.array(oq.compute_dynamics(sysm, M.RHO_GEN2, process_tensor=p, progress_type="silent").states).ravel()
         if name == "dynamics":
             return np.array(oq.compute_dynamics(tds, M.RHO_GEN2, process_tensor=pt, start_time=0.3, progress_type="silent").states).ravel()
+        if name == "controlled":
+            return np.array(oq.compute_dynamics(sysm, M.RHO_GEN2, process_tensor=pt, control=ctrl, progress_type="silent").states).ravel()
         if name == "correlations":
             return oq.compute_correlations(sysm, pt, M.SZ, M.SX, [0, 1], slice(None), initial_state=M.RHO_GEN2,
                                            start_time=0.0, progress_type="silent")[1].ravel()
@@ -640,7 +656,7 @@ def reuse_case(perm):
     shared["pt"] = pt_fresh      # the PT itself is shared by 'dynamics' and 'correlations' (gauge: same object on both sides)
     vio = []
     for i, name in enumerate(perm):
-        got = comp(name, bath, sysm, tds, prm, shared["pt"])
+        got = comp(name, bath, sysm, tds, prm, shared["pt"], ctrl)
         b2, s2, t2, p2 = fresh()
         exp = comp(name, b2, s2, t2, p2, shared["pt"])
         m = ~np.isnan(exp)
@@ -688,16 +704,16 @@ def run(tier, seed):
         nl += r["n"]
         for cls, what in r["vio"]:
             rep.add(Violation(cls, what, {"part": "retention", "api": nm}))
-    ujobs = [(k, f, o) for k in ("rank4", "rank4T", "rank3", "rank3T") for f in (False, True)
+    ujobs = [(k, f, o) for k in ("rank4", "rank4T", "rank3", "rank3T", "pttempo") for f in (False, True)
              for o in ((), ("use",), ("get",), ("get", "use"), ("use", "get"), ("recompute",), ("use", "recompute"))]
     ur = pmap(pt_update_case, ujobs, seed=seed)
     for j, r in zip(ujobs, ur):
         nl += r["n"]
         for cls, what in r["vio"]:
             rep.add(Violation(cls, what, {"part": "ptupdate", "args": [j[0], j[1], list(j[2])]}))
-    comps = ["tempo", "tempo-td", "pttempo", "dynamics", "correlations"]
-    perms = list(itertools.permutations(comps)) if tier == "thorough" else \
-        [p for p in itertools.permutations(comps) if p[0] in ("tempo", "pttempo", "dynamics")][::2]
+    comps = ["tempo", "tempo-td", "pttempo", "dynamics", "correlations", "controlled", "controlled"]
+    allp = sorted(set(itertools.permutations(comps)))
+    perms = allp[::6] if tier == "thorough" else [p for p in allp if p[0] in ("tempo", "pttempo", "dynamics", "controlled")][::40]
     rres = pmap(reuse_case, perms, seed=seed)
     for p, r in zip(perms, rres):
         trans += r["n"]
@@ -715,8 +731,8 @@ def run(tier, seed):
                 "objects (CustomCorrelations: depth <= 4 and at most two evaluations); oracle = same observation on freshly "
                 "constructed objects; layouts: 19 array arguments x up to 7 layouts; retention: 16 APIs that keep a caller array, the caller "
                 "overwrites its array in place after the call and the object must answer as before; process-tensor update: 4 kinds x "
-                "{in-memory, file-backed} x 5 use/get prefixes, then all tensors are replaced and the object must behave like a fresh one; reuse: permutations of 5 computations on shared "
-                "objects (quick: 36 of 120 orders, thorough: all)",
+                "{in-memory, file-backed} x 5 use/get prefixes, then all tensors are replaced and the object must behave like a fresh one; reuse: orders of 7 computations (5 kinds + the same stacked Control object used twice) on "
+                "shared objects, a regular sub-sample of the 2520 distinct orders (quick every 40th, thorough every 6th)",
         "samples": [{"kind": jobs[(17 * seed) % len(jobs)][0], "history": list(jobs[(17 * seed) % len(jobs)][1])},
                     {"layout": ["AugmentedMPS.gamma(rank2)", "T-view"]}, {"reuse": list(perms[0])}],
     }
